@@ -177,6 +177,14 @@ let () =
         | ["setcounter"; c; k] -> do_op (OSetCounter (n_of_string c, n_of_string k)) noenv
         | ["reopen"] -> do_op OReopen noenv
         | ["dump"; c; ids] -> do_op (ODump (n_of_string c, ids_of_string ids)) noenv
+        | ["setupstate"; k] ->
+          (* Setup.v: the data directory after a start that died after k of the six steps of SqliteStorage::new,
+             and after the next complete start *)
+          let show (d : ddir) =
+            let b x = if x then "1" else "0" in
+            Printf.sprintf "dir=%s file=%s wal=%s clients=%s versions=%s index=%s" (b d.d_dir) (b d.d_file) (b d.d_wal) (b d.d_clients) (b d.d_versions) (b d.d_index) in
+          let d = dead_start d_none (nat_of_int (int_of_string k)) in
+          Printf.printf "setupstate %s => %s ready=%s\n" (show d) (show (storage_new d)) (if ready (storage_new d) then "1" else "0")
         | "race" :: _ -> print_endline "race"   (* free-running overlap: judged by the oracle alone *)
         | "txn" :: c :: calls ->
           (* txn CLIENT call...   (storage-trait rig, L0.run_txn) *)
